@@ -604,3 +604,39 @@ func (noInstIDProfile) GetClaims() psatoken.IClaims {
 		CanonicalProfile: NoInstIDName,
 	}}
 }
+
+// ---- a derived profile that does not allow software components: the
+// factory leaves the container nil, getter and setter report "not in
+// profile" (the claims-set is valid without them) ----
+
+const NoSwP2Name = "http://example.com/verif/no-sw-components-on-p2"
+
+type NoSwP2Claims struct{ psatoken.P2Claims }
+
+func (o *NoSwP2Claims) GetSoftwareComponents() ([]psatoken.ISwComponent, error) {
+	return nil, psatoken.ErrClaimNotInProfile
+}
+func (o *NoSwP2Claims) SetSoftwareComponents([]psatoken.ISwComponent) error {
+	return psatoken.ErrClaimNotInProfile
+}
+func (o *NoSwP2Claims) Validate() error { return psatoken.ValidateClaims(o) }
+
+func (o NoSwP2Claims) MarshalCBOR() ([]byte, error) { return encoding.SerializeStructToCBOR(hem, &o) }
+func (o *NoSwP2Claims) UnmarshalCBOR(data []byte) error {
+	return encoding.PopulateStructFromCBOR(hdm, data, o)
+}
+func (o NoSwP2Claims) MarshalJSON() ([]byte, error) { return encoding.SerializeStructToJSON(&o) }
+func (o *NoSwP2Claims) UnmarshalJSON(data []byte) error {
+	return encoding.PopulateStructFromJSON(data, o)
+}
+
+type noSwP2Profile struct{}
+
+func (noSwP2Profile) GetName() string { return NoSwP2Name }
+func (noSwP2Profile) GetClaims() psatoken.IClaims {
+	p := eat.Profile{}
+	if err := p.Set(NoSwP2Name); err != nil {
+		panic(err)
+	}
+	return &NoSwP2Claims{psatoken.P2Claims{Profile: &p, CanonicalProfile: NoSwP2Name}}
+}
